@@ -278,15 +278,15 @@ theorem findElement_amount {txs : List Transaction} {p : LspPos} {rng : Rng} {a 
     and exactly its cost (unit or total, quantity, commodity) — the decimals as parsed, with no
     arithmetic on them — whatever the workspace or include tree; and the amount shown belongs to
     a posting of the requesting document whose amount range contains the cursor. -/
-theorem amount_hover_exact (ws perUri : Option Resolved) (doc : Journal) (p : LspPos)
-    (rng : Rng) (a : Amount) (c : Option Cost)
-    (h : findElement doc.transactions p = some (.amount rng a c)) :
-    (hover ws perUri doc p).map (·.figures) =
+theorem amount_hover_exact (ws perUri : Option Resolved) (doc : Journal) (lns : List HL.Text.Txt)
+    (p : LspPos) (rng : Rng) (a : Amount) (c : Option Cost)
+    (h : findElement doc.transactions (runePos lns p) = some (.amount rng a c)) :
+    (hover ws perUri doc lns p).map (·.figures) =
       some (.amount a.quantity a.commodity.symbol
         (c.map fun c => (c.isTotal, c.amount.quantity, c.amount.commodity.symbol))) ∧
     ∃ tx ∈ doc.transactions, ∃ po ∈ tx.postings, po.amount = some a ∧ po.cost = c ∧
-      positionInRange p a.range = true := by
-  refine ⟨by simp [hover, h, buildFigures], ?_⟩
+      positionInRange (runePos lns p) a.range = true := by
+  refine ⟨by simp [hover, hoverR, h, buildFigures], ?_⟩
   obtain ⟨tx, htx, po, hpo, h1, h2, _, h4⟩ := findElement_amount h
   exact ⟨tx, htx, po, hpo, h1, h2, h4⟩
 
@@ -361,16 +361,16 @@ theorem findElement_account {txs : List Transaction} {p : LspPos} {rng : Rng} {a
     an account hover counts at least the posting under the cursor.  (Was the positive form of
     the guard of the finding orphan-file-not-counted; `current_file_counted` below discharges
     the hypothesis for the repaired server.) -/
-theorem current_file_counted_partial (ws perUri : Option Resolved) (doc : Journal) (p : LspPos)
-    (rng : Rng) (acc : Account)
-    (h : findElement doc.transactions p = some (.account rng acc))
+theorem current_file_counted_partial (ws perUri : Option Resolved) (doc : Journal)
+    (lns : List HL.Text.Txt) (p : LspPos) (rng : Rng) (acc : Account)
+    (h : findElement doc.transactions (runePos lns p) = some (.account rng acc))
     (hsub : ∀ tx ∈ doc.transactions, tx ∈ hoverTransactions ws perUri doc) :
-    (hover ws perUri doc p).map (·.figures) =
+    (hover ws perUri doc lns p).map (·.figures) =
       some (.account acc.name
         (accountBalanceLines (accountBalances (hoverTransactions ws perUri doc)) acc.name)
         (countPostings acc.name (hoverTransactions ws perUri doc))) ∧
     1 ≤ countPostings acc.name (hoverTransactions ws perUri doc) := by
-  refine ⟨by simp [hover, h, buildFigures], ?_⟩
+  refine ⟨by simp [hover, hoverR, h, buildFigures], ?_⟩
   obtain ⟨tx, htx, po, hpo, hacc⟩ := findElement_account h
   rw [countPostings_eq]
   apply List.countP_pos_iff.mpr
@@ -383,10 +383,11 @@ theorem current_file_counted_partial (ws perUri : Option Resolved) (doc : Journa
 /-- From the root journal or a file of its include tree Hover aggregates over the workspace's
     tree; from any other journal (and without a workspace) over the document's own tree, as
     resolved for its URI, or over the document alone before that exists. -/
-theorem hover_tree_choice (w : WsView) (perUri : Option Resolved) (path : Bytes) (doc : Journal) (p : LspPos) :
-    (w.contains path = true → hoverAt (some w) perUri path doc p = hover (some w.resolved) perUri doc p) ∧
-    (w.contains path = false → hoverAt (some w) perUri path doc p = hover none perUri doc p) ∧
-    hoverAt none perUri path doc p = hover none perUri doc p := by
+theorem hover_tree_choice (w : WsView) (perUri : Option Resolved) (path : Bytes) (doc : Journal)
+    (lns : List HL.Text.Txt) (p : LspPos) :
+    (w.contains path = true → hoverAt (some w) perUri path doc lns p = hover (some w.resolved) perUri doc lns p) ∧
+    (w.contains path = false → hoverAt (some w) perUri path doc lns p = hover none perUri doc lns p) ∧
+    hoverAt none perUri path doc lns p = hover none perUri doc lns p := by
   refine ⟨fun h => ?_, fun h => ?_, rfl⟩ <;> simp [hoverAt, workspaceResolvedFor, h]
 
 /-- The snapshots Hover may consult hold the requesting document's own current tree: the
@@ -434,15 +435,15 @@ theorem current_file_in_scope (v : Option WsView) (perUri : Option Resolved) (pa
     shows the balance lines and the posting count over the chosen tree, and that count
     includes the posting under the cursor. -/
 theorem current_file_counted (v : Option WsView) (perUri : Option Resolved) (path : Bytes)
-    (doc : Journal) (p : LspPos) (rng : Rng) (acc : Account)
-    (h : findElement doc.transactions p = some (.account rng acc))
+    (doc : Journal) (lns : List HL.Text.Txt) (p : LspPos) (rng : Rng) (acc : Account)
+    (h : findElement doc.transactions (runePos lns p) = some (.account rng acc))
     (hs : InSync v perUri path doc) :
     let txs := hoverTransactions (workspaceResolvedFor v path) perUri doc
-    (hoverAt v perUri path doc p).map (·.figures) =
+    (hoverAt v perUri path doc lns p).map (·.figures) =
       some (.account acc.name (accountBalanceLines (accountBalances txs) acc.name)
         (countPostings acc.name txs)) ∧
     1 ≤ countPostings acc.name txs :=
-  current_file_counted_partial (workspaceResolvedFor v path) perUri doc p rng acc h
+  current_file_counted_partial (workspaceResolvedFor v path) perUri doc lns p rng acc h
     (current_file_in_scope v perUri path doc hs)
 
 /-- The column where `estimatePayeeRange` expects the payee. -/
@@ -452,16 +453,17 @@ def payeeStart (tx : Transaction) : Nat :=
 /-- Guard of the known finding payee-range-estimated, positively: if the payee really starts
     one column after the date (three after a status mark), every cursor from its first
     character to just past its last one, on the date's line, finds the payee, and Hover shows
-    the number of transactions with that payee. -/
-theorem payee_found_partial (ws perUri : Option Resolved) (doc : Journal) (tx : Transaction)
-    (rest : List Transaction) (p : LspPos)
+    the number of transactions with that payee.  `p` is the cursor in runes (`runePos lns` of
+    the request's position `p0`); the payee's length counts runes too. -/
+theorem payee_found_partial (ws perUri : Option Resolved) (doc : Journal) (lns : List HL.Text.Txt)
+    (tx : Transaction) (rest : List Transaction) (p0 p : LspPos) (hp : runePos lns p0 = p)
     (hdoc : doc.transactions = tx :: rest)
     (hne : payeeOrDescription tx ≠ [])
     (hdate : positionInRange p tx.date.range = false)
     (hline : p.line + 1 = tx.date.range.start.line)
     (hlo : payeeStart tx ≤ p.char + 1)
-    (hhi : p.char + 1 ≤ payeeStart tx + u16len (payeeOrDescription tx)) :
-    (hover ws perUri doc p).map (·.figures) =
+    (hhi : p.char + 1 ≤ payeeStart tx + runeLen (payeeOrDescription tx)) :
+    (hover ws perUri doc lns p0).map (·.figures) =
       some (.payee (payeeOrDescription tx)
         (countPayee (payeeOrDescription tx) (hoverTransactions ws perUri doc))) := by
   have hin : positionInRange p (estimatePayeeRange tx (payeeOrDescription tx)) = true := by
@@ -470,18 +472,18 @@ theorem payee_found_partial (ws perUri : Option Resolved) (doc : Journal) (tx : 
     cases hs : (tx.status != Status.none)
     · simp only [hs, Bool.false_eq_true, if_false] at hlo hhi
       have h2 : ¬ (p.char + 1 < tx.date.range.stop.col + 1) := by omega
-      have h3 : ¬ (p.char + 1 > tx.date.range.stop.col + 1 + u16len (payeeOrDescription tx)) := by omega
+      have h3 : ¬ (p.char + 1 > tx.date.range.stop.col + 1 + runeLen (payeeOrDescription tx)) := by omega
       simp [positionInRange, estimatePayeeRange, hs, h1, h2, h3]
     · simp only [hs, if_true] at hlo hhi
       have h2 : ¬ (p.char + 1 < tx.date.range.stop.col + 1 + 2) := by omega
-      have h3 : ¬ (p.char + 1 > tx.date.range.stop.col + 1 + 2 + u16len (payeeOrDescription tx)) := by omega
+      have h3 : ¬ (p.char + 1 > tx.date.range.stop.col + 1 + 2 + runeLen (payeeOrDescription tx)) := by omega
       simp [positionInRange, estimatePayeeRange, hs, h1, h2, h3]
   have hb : (payeeOrDescription tx != []) = true := by simpa using hne
   have hf : findElement doc.transactions p =
       some (.payee (estimatePayeeRange tx (payeeOrDescription tx)) (payeeOrDescription tx) tx) := by
     rw [hdoc]
     simp [findElement, findInTransaction, hdate, payeeElement, hb, hin]
-  simp [hover, hf, buildFigures]
+  simp [hover, hoverR, hp, hf, buildFigures]
 
 /-! ### The judge accepts the model: what is shown, as text, is what the statement demands -/
 
@@ -605,7 +607,7 @@ example : ∃ rng acc, findElement (Cex.journal [Cex.tx 1 [Cex.posting Cex.xy 2 
 /-- The hypotheses of `payee_found_partial` are satisfiable (`2024-01-15 Shop`, cursor on `h`). -/
 example : ∃ tx : Transaction, ∃ p : LspPos, payeeOrDescription tx ≠ [] ∧
     positionInRange p tx.date.range = false ∧ p.line + 1 = tx.date.range.start.line ∧
-    payeeStart tx ≤ p.char + 1 ∧ p.char + 1 ≤ payeeStart tx + u16len (payeeOrDescription tx) :=
+    payeeStart tx ≤ p.char + 1 ∧ p.char + 1 ≤ payeeStart tx + runeLen (payeeOrDescription tx) :=
   ⟨{ Cex.tx 1 [] with description := [83, 104, 111, 112] }, ⟨0, 12⟩, by decide⟩
 
 
@@ -639,10 +641,11 @@ open Cex in
 theorem pinned_orphan_file_counterexample :
     let w : WsView := ⟨⟨some fileB, [], []⟩, b⟩
     let doc := journal [tx 1 [posting op 2 (some 3)]]
+    let lns : List HL.Text.Txt := ["2024-01-15 x".toList, "  o:p  3 USD".toList, []]
     w.contains [111] = false ∧
-    pinnedHoverAt (some w) (some ⟨some doc, [], []⟩) [111] doc ⟨1, 2⟩
+    pinnedHoverAt (some w) (some ⟨some doc, [], []⟩) [111] doc lns ⟨1, 2⟩
       = some ⟨.account op [] 0, (1, 2, 1, 5)⟩ ∧
-    hoverAt (some w) (some ⟨some doc, [], []⟩) [111] doc ⟨1, 2⟩
+    hoverAt (some w) (some ⟨some doc, [], []⟩) [111] doc lns ⟨1, 2⟩
       = some ⟨.account op [(usd, ⟨3, 0⟩)] 1, (1, 2, 1, 5)⟩ := by
   decide
 
@@ -654,7 +657,7 @@ example :
     let w : WsView := ⟨⟨some fileB, [], []⟩, b⟩
     let doc := journal [tx 1 [posting op 2 (some 3)]]
     InSync (some w) (some ⟨some doc, [], []⟩) [111] doc ∧
-    ∃ rng acc, findElement doc.transactions ⟨1, 2⟩ = some (.account rng acc) := by
+    ∃ rng acc, findElement doc.transactions (runePos ["2024-01-15 x".toList, "  o:p  3 USD".toList, []] ⟨1, 2⟩) = some (.account rng acc) := by
   refine ⟨⟨?_, ?_, ?_⟩, _, _, rfl⟩
   · intro w hw hp; cases hw; exact absurd hp (by decide)
   · intro w hw _ hl; cases hw; exact absurd hl (by decide)
